@@ -15,6 +15,10 @@ HELD to the end of the sequence: it must still be bit-identical to what it was w
 returned, no two results may share memory, and a result may share memory with an input only
 of its own in_place call (a result that aliases an internal buffer is overwritten by the next
 call on an equally shaped input).
+
+Sub-check `pad_modes`: every documented FORM of pad_mode - all named numpy.pad modes, their keyword variants
+and callables - for Deltas and Stack; the reference applies the rule to one whole vector along the filtered /
+time axis at a time.
 """
 import itertools
 
@@ -32,9 +36,14 @@ ASSUMPTIONS = [
     "entry survives a round trip through float64; the filtered blocks of these are compared with a relative "
     "tolerance (the property fixes the recursion, not its precision) and, for uint64, not at all where the "
     "filter output is negative (no value of the dtype)",
-    "padding modes are the named numpy.pad modes edge/constant/reflect/symmetric/wrap/mean/"
-    "maximum/minimum/linear_ramp with their default or one explicit keyword; callables are "
-    "not enumerated",
+    "padding modes are the named numpy.pad modes edge/constant/reflect/symmetric/wrap/mean/median/"
+    "maximum/minimum/linear_ramp with their default or one explicit keyword (constant_values, end_values, "
+    "reflect_type='odd', stat_length); mode 'empty' (undefined pad values) is not enumerated; pad_modes: "
+    "callables are the numpy.pad documentation's pad_with example (with / without its padder keyword), a "
+    "data-dependent one in the same style and one that is safe for zero widths; Stack only with the last kind "
+    "(numpy.pad itself calls a padding function along every axis of the tensor it is given, and Stack "
+    "documents that it gives numpy.pad the tensor); for the keyword variants and callables the reference is "
+    "numpy.pad / the callable applied to ONE whole vector along the filtered (Deltas) or time (Stack) axis",
     "float64 intermediate then cast to the input dtype: integer results may differ by one unit "
     "where the exact value is an integer (summation order), float32 by 2 ulp",
     "histories: alphabet of 72 (Deltas) / 48 (Stack) calls over shapes (4,), (3,4), (2,3,2) / (5,2), (2,3), "
@@ -58,14 +67,89 @@ MODES_QUICK = ("edge", "constant", "reflect", "wrap", "symmetric", "constant:1.5
                "linear_ramp:2")
 
 
+# callables for pad_mode (documented as Union[str, Callable]), written for the documented use: numpy.pad calls
+# padding_func(vector, iaxis_pad_width, iaxis, kwargs) with a rank-1 vector already extended with zeros
+def pad_with(vector, pad_width, iaxis, kwargs):
+    """the example of the numpy.pad documentation, verbatim"""
+    pad_value = kwargs.get('padder', 10)
+    vector[:pad_width[0]] = pad_value
+    vector[-pad_width[1]:] = pad_value
+
+
+def pad_neg_edge(vector, pad_width, iaxis, kwargs):
+    """the same style, values taken from the data: minus the edge value on either side"""
+    vector[:pad_width[0]] = -vector[pad_width[0]]
+    vector[-pad_width[1]:] = -vector[-pad_width[1] - 1]
+
+
+def pad_robust(vector, pad_width, iaxis, kwargs):
+    """leaves the vector alone where a width is zero and ignores iaxis: 2 * edge + 1, or kwargs['padder']"""
+    before, after = pad_width
+    n = len(vector)
+    v = kwargs.get('padder')
+    if before:
+        vector[:before] = (2 * vector[before] + 1) if v is None else v
+    if after:
+        vector[n - after:] = (2 * vector[n - after - 1] + 1) if v is None else v
+
+
+CALLABLES = dict(pad_with=pad_with, neg_edge=pad_neg_edge, robust=pad_robust)
+NATIVE_MODES = ("edge", "constant", "reflect", "symmetric", "wrap", "mean", "maximum", "minimum", "linear_ramp")
+
+
 def _mode(m):
-    """JSON-able mode -> (numpy mode name, kwargs for np.pad, kwargs for the reference)"""
+    """JSON-able mode -> (numpy.pad mode: a name or a callable, kwargs for np.pad, kwargs for the reference)
+      "name"           a numpy.pad mode with its defaults
+      "constant:V" / "linear_ramp:V"   constant_values / end_values = V
+      "name:odd"       reflect_type='odd';   "name:statN"   stat_length=N
+      "call:F[:V]"     the callable CALLABLES[F] (with padder=V)"""
     if ":" in m:
-        name, v = m.split(":")
+        parts = m.split(":")
+        name, v = parts[0], parts[1]
+        if name == "call":
+            kw = dict(padder=float(parts[2])) if len(parts) > 2 else {}
+            return CALLABLES[v], kw, kw
+        if v == "odd":
+            return name, dict(reflect_type="odd"), dict(reflect_type="odd")
+        if v.startswith("stat"):
+            return name, dict(stat_length=int(v[4:])), dict(stat_length=int(v[4:]))
         v = float(v)
         k = "constant_values" if name == "constant" else "end_values"
         return name, {k: v}, {k: v}
     return m, {}, {}
+
+
+def _pad_fn(m):
+    """None for the modes mc/refs/post.py extends by its own index rules, else the padding rule as a function
+    (rank-1 vector, (before, after)) -> extended rank-1 vector: numpy.pad on that ONE vector (keyword variants
+    of the named modes: numpy.pad defines them), or the callable called directly as numpy.pad documents it
+    (vector extended with zeros, iaxis 0)"""
+    name, padkw, _ = _mode(m)
+    if callable(name):
+        def fn(v, widths):
+            vec = np.zeros(len(v) + widths[0] + widths[1], dtype=v.dtype)
+            vec[widths[0]:widths[0] + len(v)] = v
+            name(vec, (widths[0], widths[1]), 0, dict(padkw))
+            return vec
+        return fn
+    if name in NATIVE_MODES and set(padkw) <= {"constant_values", "end_values"}:
+        return None
+    return lambda v, widths: np.pad(v, (widths[0], widths[1]), name, **padkw)
+
+
+def _ref_orders(x, max_order, window, axis, mode):
+    fn = _pad_fn(mode)
+    if fn is not None:
+        return ref.delta_orders(x, max_order, window, axis, None, pad_fn=fn)
+    name, _, refkw = _mode(mode)
+    return ref.delta_orders(x, max_order, window, axis, name, **refkw)
+
+
+def _mode_class(m):
+    name, padkw, _ = _mode(m)
+    if callable(name):
+        return "callable"
+    return name + ("+" + "+".join(sorted(padkw)) if padkw else "")
 
 
 def _kindof(dtype):
@@ -166,6 +250,8 @@ def _deltas_one3(x, pristine, dtype, axis, window, mode, nd, concat, ta, in_plac
 
     name, padkw, _ = _mode(mode)
     tags = dict(tags0, concatenate=bool(concat), edge_mode=bool(name == "edge"))
+    if callable(name):
+        tags["callable_pad_mode"] = True
     case = dict(proc="Deltas", shape=list(x.shape), dtype=dtype, axis=axis, window=window,
                 mode=mode, num_deltas=nd, concatenate=bool(concat), target_axis=ta,
                 in_place=bool(in_place))
@@ -252,8 +338,7 @@ def _eval_deltas(pt, seed, tier, wide=False):
         else:
             combos = [(w, m, (0, 1, 2, 3)) for w in (1, 2, 3) for m in modes]
         for window, mode, nds in combos:
-            _, _, refkw = _mode(mode)
-            orders = ref.delta_orders(x, max(nds), window, axis, _mode(mode)[0], **refkw)
+            orders = _ref_orders(x, max(nds), window, axis, mode)
             # quick tier: how the blocks are laid out (concatenate x target_axis) does not depend on how
             # they were computed (window x pad_mode), so only two (window, mode) pairs carry the full
             # target_axis range; the others get the first, the last and the most negative position
@@ -288,8 +373,7 @@ def _eval_deltas(pt, seed, tier, wide=False):
 def _replay_deltas(case, seed):
     shape, dtype = tuple(case["shape"]), case["dtype"]
     x = sig.ro(_data(seed, shape, dtype, case.get("variant", 0)))
-    name, _, refkw = _mode(case["mode"])
-    orders = ref.delta_orders(x, case["num_deltas"], case["window"], case["axis"], name, **refkw)
+    orders = _ref_orders(x, case["num_deltas"], case["window"], case["axis"], case["mode"])
     v, _ = _deltas_one(x, np.array(x, copy=True), dtype, case["axis"], case["window"], case["mode"],
                        case["num_deltas"], case["concatenate"], case["target_axis"],
                        case["in_place"], orders, dict(proc="Deltas", dtype_kind=_kindof(dtype)))
@@ -311,7 +395,9 @@ def _stack_one(x, pristine, dtype, nv, time_axis, axis, pad, in_place, tags0):
         name, padkw, _ = _mode(pad)
         cv = padkw.get("constant_values", 0)
     T = x.shape[time_axis]
-    tags = dict(tags0, pad_mode=name, path="2d" if ndim == 2 else "nd",
+    fn = None if pad is None or (name in ("edge", "constant") and set(padkw) <= {"constant_values"}) \
+        else (_pad_fn(pad) or (lambda v, widths: np.pad(v, (widths[0], widths[1]), name, **padkw)))
+    tags = dict(tags0, pad_mode=name if fn is None else _mode_class(pad), path="2d" if ndim == 2 else "nd",
                 incomplete_run=bool(T % nv), short=bool(T < nv))
     case = dict(proc="Stack", shape=list(x.shape), dtype=dtype, num_vectors=nv, time_axis=time_axis,
                 axis=axis, pad=pad, in_place=bool(in_place))
@@ -326,7 +412,12 @@ def _stack_one(x, pristine, dtype, nv, time_axis, axis, pad, in_place, tags0):
                                "apply raised %s: %s" % (r[1], r[2]), case)], None, None
     got = r[1]
     cvd = np.array(cv).astype(dtype).item()
-    want = ref.stack_apply(x, nv, time_axis, axis, name, cvd)
+    if fn is None:
+        want = ref.stack_apply(x, nv, time_axis, axis, name, cvd)
+    else:
+        # "numpy.pad of the WHOLE time axis up to the next multiple of num_vectors, then stack": the rule
+        # is applied to every whole vector along the time axis on its own
+        want = ref.stack_apply(x, nv, time_axis, axis, "fn", pad_fn=fn)
     viol = []
     if not isinstance(got, np.ndarray) or got.shape != want.shape:
         return [core.violation(dict(tags, what="shape"),
@@ -335,7 +426,11 @@ def _stack_one(x, pristine, dtype, nv, time_axis, axis, pad, in_place, tags0):
     if got.dtype != x.dtype:
         viol.append(core.violation(dict(tags, what="dtype"),
                                    "result dtype %s, input dtype %s" % (got.dtype, x.dtype), case))
-    elif not np.array_equal(got, want):
+    elif not np.array_equal(got, want) and not (
+            # computed pad values (mean of floats, ramps): the order of summation over a strided axis is
+            # numpy's business
+            fn is not None and x.dtype.kind == "f" and name in ("mean", "median", "linear_ramp") and
+            np.allclose(got, want, rtol=1e-6 if dtype == "float32" else 1e-12, atol=1e-12)):
         bad = np.argwhere(got != want)[0]
         viol.append(core.violation(
             dict(tags, what="values"),
@@ -789,6 +884,88 @@ def _history_configs(tier):
     return shards + out
 
 
+
+# ------------------------------------------------------------------ every documented form of pad_mode
+#
+# pad_mode / **kwargs are passed through to numpy.pad (Deltas: per vector along the filtered axis; Stack: the
+# time axis extended on the right).  The lattices above use the plain named modes; here EVERY named mode
+# whose pad values are well defined, the keyword variants (constant_values, end_values, reflect_type='odd',
+# stat_length) and callables (the numpy.pad documentation's pad_with example with and without its `padder`
+# keyword, a data-dependent one in the same style, one that is safe for zero widths) are enumerated on a
+# small set of shapes.  The reference applies the rule to ONE whole vector along the filtered / time axis at
+# a time (mc/refs/post.py, pad_fn): a padding value may depend on the whole of that vector and on nothing else.
+
+PM_DELTAS_MODES = ("median", "maximum", "minimum", "reflect:odd", "symmetric:odd", "mean:stat2", "minimum:stat3",
+                   "call:pad_with", "call:pad_with:-3", "call:neg_edge", "call:robust")
+PM_DELTAS_SHAPES = ((5,), (2,), (3, 5), (5, 2), (1, 3), (2, 3, 5), (3, 1, 2))
+PM_DTYPES = ("float64", "int16")
+# Stack: a callable must be safe for zero widths: numpy.pad itself calls it along EVERY axis of the tensor it
+# is given, and Stack documents that it hands the tensor to numpy.pad (so the documentation's pad_with, which
+# overwrites a vector whose `after` width is 0, is not usable with numpy.pad on a 2-D tensor at all)
+PM_STACK_MODES = (None, "edge", "constant", "constant:7", "reflect", "symmetric", "wrap", "mean", "median",
+                  "maximum", "minimum", "linear_ramp", "linear_ramp:2", "reflect:odd", "symmetric:odd",
+                  "mean:stat2", "minimum:stat3", "call:robust", "call:robust:-3")
+PM_STACK_T = (1, 2, 3, 4, 5, 6, 7, 9)
+PM_STACK_NV = (1, 2, 3, 4, 5)
+
+
+def _pm_points():
+    pts = [["Deltas", list(sh), d] for sh in PM_DELTAS_SHAPES for d in PM_DTYPES]
+    for T in PM_STACK_T:
+        for sh, ta in (((T, 2), 0), ((2, T), 1), ((T, 2, 2), 0), ((2, T, 3), 1)):
+            for d in PM_DTYPES:
+                pts.append(["Stack", list(sh), d, ta])
+    return pts
+
+
+def _eval_pad_modes(pt, seed):
+    proc, shape, dtype = pt[0], tuple(pt[1]), pt[2]
+    ndim = len(shape)
+    x = sig.ro(_data(seed, shape, dtype))
+    pristine = np.array(x, copy=True)
+    viol, evals, nontriv, obs = [], 0, 0, set()
+    tags0 = dict(proc=proc, dtype_kind=_kindof(dtype), sub="pad_modes")
+    if proc == "Deltas":
+        for axis in list(range(ndim)) + [-1]:
+            for window in (1, 2):
+                for mode in PM_DELTAS_MODES:
+                    orders = _ref_orders(x, 2, window, axis, mode)
+                    for nd in (1, 2):
+                        for concat, ta in ((True, 0), (True, -1), (False, 0), (False, -1)):
+                            for ip in ((False, True) if ta == -1 and concat else (False,)):
+                                v, o = _deltas_one(x, pristine, dtype, axis, window, mode, nd, concat, ta, ip,
+                                                   orders, dict(tags0, mode=_mode_class(mode)))
+                                evals += 1
+                                nontriv += 1
+                                viol.extend(v)
+                                obs.add((_mode_class(mode), None if o is None else o[:2]))
+                if len(viol) >= 40:
+                    break
+        inner = "axis x window {1,2} x %d modes x num_deltas {1,2} x (concatenate, target_axis) x in_place" % len(
+            PM_DELTAS_MODES)
+    else:
+        ta = pt[3]
+        T = shape[ta]
+        for nv in PM_STACK_NV:
+            for axis in range(ndim):
+                if axis == ta:
+                    continue
+                for t_axis, f_axis in ((ta, axis), (ta - ndim, axis - ndim)):
+                    for pad in PM_STACK_MODES:
+                        for ip in (False, True):
+                            v, o, _ = _stack_one(x, pristine, dtype, nv, t_axis, f_axis, pad, ip, tags0)
+                            evals += 1
+                            nontriv += int(bool(T % nv) and T > nv and pad is not None)
+                            viol.extend(v)
+                            obs.add((str(pad), o))
+            if len(viol) >= 40:
+                break
+        inner = "num_vectors 1..5 x feature axis x {non-negative, negative axis values} x %d pad modes x in_place" % len(
+            PM_STACK_MODES)
+    return core.result(viol, evals=evals, nontrivial_count=nontriv, obs=sorted(map(str, obs)), obs_is_set=True,
+                       sample=dict(proc=proc, shape=list(shape), dtype=dtype, inner=inner))
+
+
 def _cost(pt):
     return -len(pt[0]) * int(np.prod([max(1, n) for n in pt[0]]))
 
@@ -864,4 +1041,21 @@ def subchecks(tier, seed):
                                     in_place=[False, True])),
             replay=lambda case: _replay_history(case, seed, tier),
             chunk=1, kind="explore"),
+        core.SubCheck(
+            "pad_modes", _pm_points(), lambda p: _eval_pad_modes(p, seed),
+            "every documented FORM of pad_mode.  Deltas at shapes %r x {float64,int16}: axis x window {1,2} x "
+            "pad_mode in %r (named modes, keyword variants reflect_type / stat_length, callables: the numpy.pad "
+            "documentation's pad_with with and without padder=, a data-dependent one in that style, one safe for "
+            "zero widths) x num_deltas {1,2} x concatenate x target_axis {0,-1}; Stack at T in %r frames as (T,2), "
+            "(2,T), (T,2,2), (2,T,3) x {float64,int16}: num_vectors 1..5 x feature axis x pad_mode in %r (callables "
+            "safe for zero widths only: numpy.pad calls them along every axis).  Reference: the rule applied to one "
+            "WHOLE vector along the filtered / time axis at a time (Stack: extended on the right to the next multiple "
+            "of num_vectors, then stacked); non-trivial = Deltas: every evaluation; Stack: padding with more than "
+            "num_vectors frames and an incomplete final run" % (
+                [list(x) for x in PM_DELTAS_SHAPES], list(PM_DELTAS_MODES), list(PM_STACK_T),
+                [str(m) for m in PM_STACK_MODES]),
+            axes=dict(deltas_shapes=[list(x) for x in PM_DELTAS_SHAPES], deltas_modes=list(PM_DELTAS_MODES),
+                      stack_T=list(PM_STACK_T), stack_num_vectors=list(PM_STACK_NV),
+                      stack_modes=[str(m) for m in PM_STACK_MODES], dtype=list(PM_DTYPES)),
+            replay=lambda case: (_replay_deltas if case["proc"] == "Deltas" else _replay_stack)(case, seed)),
     ]
